@@ -210,6 +210,8 @@ def run(ctx, chk, tier):
                         chk.violation("R18.5", SB, "%s:%s" % (inst, nm), show(d2, 120) if d2 is not None else "none", show(want_d, 120) + " with shared labels", ctx.where(SB))
     # prerequisites: per-group extraction and stacking order (C12)
     from . import c12
+    from . import c10
+    c10.global_state_rule(ctx, chk, rule="R18.6", modules=("showbias", "group_scores", "scores"), strict=False)
     c12.from_labels_rule(ctx, chk)
     c12.getitem_rule(ctx, chk)
     c12.group_cm_rule(ctx, chk)
